@@ -801,6 +801,7 @@ class Splitter(Node):
             if self.state == "SETUP_STATE":
                 
                 print(f"T={self.env.now:.2f}: {self.id} is in SETUP_STATE")
+                self.update_state("SETUP_STATE", self.env.now)  # start the clock of the set-up period
                 yield self.env.timeout(self.node_setup_time)# always an int or float
                 self.update_state("IDLE_STATE", self.env.now)
 
